@@ -44,14 +44,96 @@ HASH_SEEDS = ['0', '1', '2', '42', '12345', '4294967295', 'random', 'random']
 # the pool
 # ---------------------------------------------------------------------------------------------
 
-def make_pool(asm, n):
-    """deterministic in VERIF_SEED: list of dict(id, kind, src)"""
+CASE_REGS = ['A0', 'T0', 'SP', 'S1', 'X5', 'Zero', 'Ra', 'fP', 'A1', 'T1']
+
+
+def tree_group(rnd, gid, root):
+    """a small project of files: main.asm / main2.asm include lib/util.asm, which includes hw_defs.asm (and on odd
+    gids include_bytes fw.bin) that live ONLY in ext/ - so the same main file fails inside the nested include with
+    include_dirs=None and assembles with include_dirs=[ext]: the include_dirs input decides, never the history"""
+    d = 'g%d/' % gid
+    base = rnd.choice([0x40000000, 0x08000000, 0x20000000]) + 16 * gid
+    util = ['# utility routines', 'include hw_defs.asm', 'util_fn%d:' % gid, '    li t0, HW_BASE', '    lw t1, CTRL_OFF(t0)', '    ret']
+    if gid % 2:
+        util += ['fw_blob%d:' % gid, 'include_bytes fw.bin', '    align 4']
+    files = {
+        d + 'main.asm': '\n'.join(['start%d:' % gid, '    addi sp, sp, -16', 'include lib/util.asm', '    call util_fn%d' % gid,
+                                    '    j start%d' % gid] + ['    nop'] * rnd.randrange(0, 4)) + '\n',
+        d + 'main2.asm': '\n'.join(['# second program of the project', '    nop', 'entry%d:' % gid, '    tail util_fn%d' % gid, '',
+                                     'include "lib/util.asm"', '    dw HW_BASE + %d' % rnd.randrange(1, 99)]) + '\n',
+        d + 'lib/util.asm': '\n'.join(util) + '\n',
+        d + 'ext/hw_defs.asm': 'HW_BASE = 0x%x\nCTRL_OFF = %d\n' % (base, 4 * rnd.randrange(0, 8)),
+        d + 'ext/fw.bin': bytes(rnd.randrange(256) for _ in range(4 * rnd.randrange(1, 4))),
+        d + 'empty/readme.txt': 'nothing to include here\n',
+    }
+    ext, empty = os.path.join(root, d, 'ext'), os.path.join(root, d, 'empty')
+    main, main2 = os.path.join(root, d, 'main.asm'), os.path.join(root, d, 'main2.asm')
+    progs_ = [dict(kind='tree-nodirs', path=main, include_dirs=None), dict(kind='tree-ext', path=main, include_dirs=[ext]),
+              dict(kind='tree-ext-main2', path=main2, include_dirs=[ext]), dict(kind='tree-empty-ext', path=main, include_dirs=[empty, ext]),
+              dict(kind='tree-nodirs-main2', path=main2, include_dirs=[])]
+    for q in progs_:
+        q.update(files=files, troot=os.path.join(root, 'g%d' % gid), group='tree%d' % gid)
+    return progs_
+
+
+def fault_tree(asm, rnd, gid, root):
+    """a C15 case (or, every other time, a valid program) cut into an include tree of depth 1-2 under root/f<gid>/"""
+    d = 'f%d/' % gid
+    if gid % 2:
+        cls = faultplant.CLASSES[rnd.randrange(len(faultplant.CLASSES))]
+        got = faultplant.plant(asm, rnd, cls, rnd.choice(faultplant.POSITIONS), escapes=False)
+        if got is None:
+            return []
+        flat, f = got
+        if '{ROOT}' in f['text'] or not f['text'].isascii():
+            return []
+        depth = rnd.randrange(1, 3)
+        tree = faultplant.build_tree(rnd, flat, depth, rnd.randrange(0, depth + 1))
+        kind = 'tree-failing:' + f['cls']
+    else:
+        flat = [[t, None] for t in faultplant.base_program(asm, rnd)]
+        tree = faultplant.build_tree(rnd, flat, rnd.randrange(1, 3), None)
+        kind = 'tree-valid'
+    files = {d + k: '\n'.join(v) + '\n' for k, v in tree.files.items()}
+    return [dict(kind=kind, path=os.path.join(root, d, 'main.asm'), include_dirs=None, files=files,
+                 troot=os.path.join(root, 'f%d' % gid), group='ftree%d' % gid)]
+
+
+def materialise_pool(pool, root):
+    for p in pool:
+        for rel, content in (p.get('files') or {}).items():
+            path = os.path.join(root, rel)
+            if os.path.exists(path):
+                continue
+            os.makedirs(os.path.dirname(path), exist_ok=True)
+            with open(path, 'wb') as f:
+                f.write(content if isinstance(content, bytes) else content.encode('utf-8'))
+
+
+def make_pool(asm, n, root='/nonexistent-bbc16'):
+    """deterministic in (VERIF_SEED, root): list of dict(id, kind, src | path + include_dirs + files)"""
     pool = []
     rnd = common.rng('c16:pool')
     i = 0
     while len(pool) < n:
-        k = i % 10
+        k = i % 12
         i += 1
+        if k == 10:
+            # register spellings in another case: refused today; a call that "learns" a spelling must not change what
+            # later programs mean whose constants mention (BASE = A0 + 1) or are named like (T0 = 3) that spelling
+            a, b, c = rnd.sample(CASE_REGS, 3)
+            g = 'case%d' % len(pool)
+            pool.append(dict(kind='case-reg-use', group=g, src='    add %s, %s, %s\n    lw %s, 4(%s)\n' % (a, b, c, c, a)))
+            pool.append(dict(kind='case-reg-use', group=g, src='    nop\n    slli x5, x5, %s\n    mv %s, x1\n' % (b, c)))
+            pool.append(dict(kind='case-reg-const-expr', group=g, src='BASE = %s + 1\n    li t0, BASE\n' % a))
+            pool.append(dict(kind='case-reg-const-name', group=g, src='%s = 3\n    addi x5, x5, %s\n    slli x6, x6, %s\n' % (b, b, b)))
+            pool.append(dict(kind='case-reg-const-name', group=g, src='%s = 9\nlab%d:\n    li x7, %s * 2\n' % (c, len(pool), c)))
+            continue
+        if k == 11:
+            gid = len(pool)
+            pool.extend(tree_group(rnd, gid, root))
+            pool.extend(fault_tree(asm, rnd, gid + 1000, root))
+            continue
         if k < 5:
             lines = progs.gen_program(rnd, size=rnd.randrange(3, 30), fillers=rnd.random() < 0.3)
             src = progs.source(lines)
@@ -69,9 +151,9 @@ def make_pool(asm, n):
             # X defines what Y lacks: Y assembles only if state leaks from X's call
             tag = len(pool)
             lab, con = 'SHARED_T%d' % tag, 'SHARED_K%d' % tag
-            pool.append(dict(kind='xref-def', src='%s = 5\n    addi x8, x8, 1\n%s:\n    j %s\n    addi x5, x0, %s\n' % (con, lab, lab, con)))
-            pool.append(dict(kind='xref-use-label', src='    addi x8, x8, 1\n    j %s\n    dw %s\n' % (lab, lab)))
-            pool.append(dict(kind='xref-use-const', src='    addi x5, x0, %s\nlocal%d:\n    li t0, %s + 1\n' % (con, tag, con)))
+            pool.append(dict(kind='xref-def', group='xref%d' % tag, src='%s = 5\n    addi x8, x8, 1\n%s:\n    j %s\n    addi x5, x0, %s\n' % (con, lab, lab, con)))
+            pool.append(dict(kind='xref-use-label', group='xref%d' % tag, src='    addi x8, x8, 1\n    j %s\n    dw %s\n' % (lab, lab)))
+            pool.append(dict(kind='xref-use-const', group='xref%d' % tag, src='    addi x5, x0, %s\nlocal%d:\n    li t0, %s + 1\n' % (con, tag, con)))
         else:
             # same label / constant NAMES as other programs with different values (stale-cache bait)
             v = rnd.randrange(1, 30)
@@ -90,10 +172,16 @@ def dshow(d):
     return ','.join('%s=%d' % (common.hexs(k), v) for k, v in d.items()) or '-'
 
 
-def call(asm, src, compress, mode, state):
-    """-> (key class, canonical result string) ; state carries the dictionaries of earlier calls"""
+def call(asm, prog, compress, mode, state):
+    """-> canonical result string ; state carries the dictionaries of earlier calls.  `prog` = a pool entry:
+    source text (`src`) or a file (`path`) with its `include_dirs` input"""
     kw = {}
     labels = constants = None
+    if 'path' in prog:
+        src = prog['path']
+        extra = dict(include_dirs=(list(prog['include_dirs']) if prog['include_dirs'] is not None else None))
+    else:
+        src, extra = prog['src'], {}
     if mode == 'fresh':
         labels, constants = {}, {}
     elif mode == 'reused-cleared':
@@ -111,7 +199,7 @@ def call(asm, src, compress, mode, state):
     if labels is not None:
         kw = dict(labels=labels, constants=constants)
     try:
-        out = bytes(asm.assemble(src, compress=compress, **kw))
+        out = bytes(asm.assemble(src, compress=compress, **kw, **extra))
         if mode == 'none':
             res = 'ok %s' % (out.hex() or '-')
         else:
@@ -187,10 +275,17 @@ def diff_snap(a, b):
     return None
 
 
-def history_plan(rnd, pool_n):
-    """[(program id, compress, mode)] of length 5-50 over ~12 programs"""
+def history_plan(rnd, pool_n, groups=None):
+    """[(program id, compress, mode)] of length 5-50 over ~12 programs (+ the group siblings of up to two of them)"""
     k = min(pool_n, rnd.randrange(8, 16))
     mine = rnd.sample(range(pool_n), k)
+    if groups:
+        added = 0
+        for pid in list(mine):
+            sib = groups.get(pid)
+            if sib and added < 2:
+                mine += [q for q in sib if q not in mine]
+                added += 1
     n = rnd.randrange(5, 51)
     plan = []
     for _ in range(n):
@@ -198,22 +293,62 @@ def history_plan(rnd, pool_n):
     return plan
 
 
+def group_map(pool):
+    g = {}
+    for p in pool:
+        if p.get('group'):
+            g.setdefault(p['group'], []).append(p['id'])
+    return {p['id']: g[p['group']] for p in pool if p.get('group')}
+
+
+def show(prog):
+    """a pool entry, for messages and replay files"""
+    if 'path' in prog:
+        return dict(kind=prog['kind'], path=prog['path'], include_dirs=prog['include_dirs'],
+                    files={k: (v if isinstance(v, str) else v.hex()) for k, v in prog['files'].items()})
+    return dict(kind=prog['kind'], src=prog['src'])
+
+
+def model_request(prog, compress):
+    if 'path' not in prog:
+        return corr.request(prog['src'], compress)
+    troot = prog['troot']
+    root = os.path.dirname(troot)
+    files = sorted(prog['files'].items())
+    dirs = set([troot])
+    for rel, _ in files:
+        d = os.path.dirname(os.path.join(root, rel))
+        while len(d) >= len(troot):
+            dirs.add(d)
+            d = os.path.dirname(d)
+    inc = prog['include_dirs'] or []
+    toks = ['asmfs', '1' if compress else '0', common.hexs(troot), 'p', common.hexs(prog['path']), str(len(inc))]
+    toks += [common.hexs(d) for d in inc]
+    toks.append(str(len(files)))
+    for rel, content in files:
+        toks += [common.hexs(os.path.join(root, rel)), common.hexs(content)]
+    toks.append(str(len(dirs)))
+    toks += [common.hexs(d) for d in sorted(dirs)]
+    return ' '.join(toks)
+
+
 def worker(args):
     """one interpreter: several histories one after the other"""
-    seedv, wid, n_hist, pool_n = args
+    seedv, wid, n_hist, pool_n, root = args
     os.environ['VERIF_SEED'] = str(seedv)
     asm = progs.get_asm()
-    pool = make_pool(asm, pool_n)
+    pool = make_pool(asm, pool_n, root)
+    groups = group_map(pool)
     out = dict(wid=wid, obs=[], table_changes=[], other_changes=[], histories=[], calls=[])
     for h in range(n_hist):
         rnd = common.rng('c16:hist:%d:%d' % (wid, h))
-        plan = history_plan(rnd, len(pool))
+        plan = history_plan(rnd, len(pool), groups)
         before = snapshot(asm)
         obefore = other_state(asm)
         state = {}
         trace = []
         for step, (pid, compress, mode) in enumerate(plan):
-            res = call(asm, pool[pid]['src'], compress, mode, state)
+            res = call(asm, pool[pid], compress, mode, state)
             trace.append((pid, compress, mode))
             out['calls'].append((pid, compress, mode))
             if mode != 'dirty':
@@ -248,14 +383,45 @@ def expected_from_model(reply, mode):
 # fresh processes
 # ---------------------------------------------------------------------------------------------
 
-def cli_run(root, name, compress, hashseed, repo, slot=0):
+def cli_include_cases(root):
+    """programs whose include is found through -i directories that ALL hold a file of that name with different
+    contents: the search order (= command-line order, then the including file's directory) decides what is assembled"""
+    names = ['inc_a', 'inc_b', 'inc_c', 'inc_d']
+    for k, d in enumerate(names):
+        os.makedirs(os.path.join(root, d), exist_ok=True)
+        with open(os.path.join(root, d, 'board.asm'), 'w') as f:
+            f.write('BOARD_ID = %d\nboard_%s:\n%s    li t0, BOARD_ID\n' % (k + 1, d, '    nop\n' * k))
+        with open(os.path.join(root, d, 'GD32VF103.asm'), 'w') as f:        # shadows a file of --include-definitions
+            f.write('RCU_BASE_ADDR = 0x%x\nlocal_defs_%s:\n' % (0x1000 * (k + 1), d))
+    os.makedirs(os.path.join(root, 'proj'), exist_ok=True)
+    with open(os.path.join(root, 'use_board.asm'), 'w') as f:
+        f.write('start:\n    nop\ninclude board.asm\n    dw BOARD_ID\nend:\n')
+    with open(os.path.join(root, 'use_defs.asm'), 'w') as f:
+        f.write('include GD32VF103.asm\n    li t0, RCU_BASE_ADDR\nafter:\n')
+    cases = []
+    for nm, main, dirs, more in [('incAB', 'use_board', ['inc_a', 'inc_b'], []), ('incBA', 'use_board', ['inc_b', 'inc_a'], []),
+                                 ('incCBA', 'use_board', ['inc_c', 'inc_b', 'inc_a'], []),
+                                 ('incDCBA', 'use_board', ['inc_d', 'inc_c', 'inc_b', 'inc_a'], []),
+                                 ('incABdup', 'use_board', ['inc_a', 'inc_b', './inc_a'], []),
+                                 ('defsA', 'use_defs', ['inc_a'], ['--include-definitions']),
+                                 ('defsBA', 'use_defs', ['inc_b', 'inc_a'], ['--include-definitions'])]:
+        args = []
+        for d in dirs:
+            args += ['-i', d]
+        cases.append(dict(id=-2, kind='cli-include:' + nm, name=main, tag=nm, cli_args=args + more,
+                          include_dirs=[os.path.abspath(os.path.join(root, d)) for d in dirs], definitions=bool(more),
+                          src=open(os.path.join(root, main + '.asm')).read()))
+    return cases
+
+
+def cli_run(root, name, compress, hashseed, repo, slot=0, extra=(), tag=None):
     env = dict(os.environ, PYTHONPATH=repo, PYTHONHASHSEED=hashseed)
-    tag = '%s_%d_%d' % (name, 1 if compress else 0, slot)      # one output pair per (parallel) run
+    tag = '%s_%d_%d' % (tag or name, 1 if compress else 0, slot)      # one output pair per (parallel) run
     o, l = os.path.join(root, tag + '.bin'), os.path.join(root, tag + '.lbl')
     for p in (o, l):
         if os.path.exists(p):
             os.remove(p)
-    cmd = [PY, '-m', 'bronzebeard.asm', name + '.asm', '-v', '-o', o, '-l', l] + (['-c'] if compress else [])
+    cmd = [PY, '-m', 'bronzebeard.asm', name + '.asm', '-v', '-o', o, '-l', l] + (['-c'] if compress else []) + list(extra)
     p = subprocess.run(cmd, cwd=root, env=env, stdout=subprocess.PIPE, stderr=subprocess.PIPE, timeout=300)
     ob = open(o, 'rb').read() if os.path.exists(o) else None
     lt = open(l).read() if os.path.exists(l) else None
@@ -263,9 +429,9 @@ def cli_run(root, name, compress, hashseed, repo, slot=0):
 
 
 def cli_job(args):
-    root, name, compress, hs, repo, slot = args
-    r = cli_run(root, name, compress, hs, repo, slot)
-    return (name, compress, hs, r)
+    root, name, compress, hs, repo, slot, extra, tag = args
+    r = cli_run(root, name, compress, hs, repo, slot, extra, tag)
+    return (tag, compress, hs, r)
 
 
 def run(tier, replay):
@@ -275,16 +441,21 @@ def run(tier, replay):
     ob = common.check_obligations(PROP, obligations.THEOREMS.get(PROP, []))
     asm = progs.get_asm()
     quick = tier == 'quick'
-    pool_n = 96 if quick else 300
+    pool_n = 120 if quick else 360
     n_workers = 16 if quick else 64
     n_hist = 12 if quick else 25
-    pool = make_pool(asm, pool_n)
+    proot = os.path.realpath(tempfile.mkdtemp(prefix='bbc16p-'))
     ctx = mp.get_context('fork')
-    with ctx.Pool(min(16, os.cpu_count() or 4)) as p:
-        outs = p.map(worker, [(common.seed(), w, n_hist, pool_n) for w in range(n_workers)], chunksize=1)
+    try:
+        pool = make_pool(asm, pool_n, proot)
+        materialise_pool(pool, proot)
+        with ctx.Pool(min(16, os.cpu_count() or 4)) as p:
+            outs = p.map(worker, [(common.seed(), w, n_hist, pool_n, proot) for w in range(n_workers)], chunksize=1)
+    finally:
+        shutil.rmtree(proot, ignore_errors=True)
     # model replies, once per (program, mode) - the model has no history at all
     keys = sorted(set((pid, c) for o in outs for (pid, c, *_r) in o['obs']))
-    replies = common.drv([corr.request(pool[pid]['src'], c) for pid, c in keys])
+    replies = common.drv([model_request(pool[pid], c) for pid, c in keys])
     model = dict(zip(keys, replies))
     table = {}       # (pid, compress, result class) -> first observation
     disagreements = []
@@ -335,7 +506,7 @@ def run(tier, replay):
         seen.add(k)
         rep.violation('history dependence: program {} ({}) compress={} mode={} gave {} at (worker, history, call) {} but {} at {} (mode {})'.format(
             d['pid'], pool[d['pid']]['kind'], d['compress'], d['mode'], d['got'][:100], d['where'], d['first'][:100], d['first_where'], d['first_mode']),
-            dict(case=dict(d, program=pool[d['pid']]['src'], pool_n=pool_n)))
+            dict(case=dict(d, program=show(pool[d['pid']]), pool_n=pool_n)))
     # ---- fresh processes ---------------------------------------------------------------------
     n_cli = 8 if quick else 32
     root = os.path.realpath(tempfile.mkdtemp(prefix='bbc16-'))
@@ -354,22 +525,25 @@ def run(tier, replay):
         chosen.append(dict(id=-1, kind='many-names', src=many))
         jobs = []
         for p in chosen:
-            name = 'p%d' % (p['id'] if p['id'] >= 0 else 9999)
-            with open(os.path.join(root, name + '.asm'), 'w') as f:
+            p['name'] = p['tag'] = 'p%d' % (p['id'] if p['id'] >= 0 else 9999)
+            with open(os.path.join(root, p['name'] + '.asm'), 'w') as f:
                 f.write(p['src'])
+        chosen += cli_include_cases(root)
+        for p in chosen:
             compress = rnd.random() < 0.5
             for slot, hs in enumerate(HASH_SEEDS):
-                jobs.append((root, name, compress, hs, common.REPO, slot))
+                jobs.append((root, p['name'], compress, hs, common.REPO, slot, tuple(p.get('cli_args', ())), p['tag']))
         with ctx.Pool(min(16, os.cpu_count() or 4)) as pl:
             res = pl.map(cli_job, jobs, chunksize=1)
         byprog = {}
         for name, compress, hs, r in res:
             byprog.setdefault((name, compress), []).append((hs, r))
         for p in chosen:
-            name = 'p%d' % (p['id'] if p['id'] >= 0 else 9999)
+            name = p['tag']
             for (nm, compress), runs in byprog.items():
                 if nm != name:
                     continue
+                rep.count('cli_programs_' + p['kind'].split(':')[0])
                 rep.count('cli_runs', len(runs))
                 ref = runs[0][1]
                 for hs, r in runs[1:]:
@@ -378,13 +552,17 @@ def run(tier, replay):
                             cli_dis += 1
                             rep.violation('fresh processes: {} differs between PYTHONHASHSEED={} and {} for program {} (compress={})'.format(
                                 {'rc': 'exit status', 'out': '-o bytes', 'labels': '-l text', 'stdout': '-v listing'}[field], runs[0][0], hs, name, compress),
-                                dict(case=dict(kind='hashseed', program=p['src'], compress=compress, seeds=[runs[0][0], hs], field=field,
+                                dict(case=dict(kind='hashseed', program=p['src'], cli_args=list(p.get('cli_args', ())), include_case=p['kind'],
+                                               compress=compress, seeds=[runs[0][0], hs], field=field,
                                                a=repr(ref[field])[:400], b=repr(r[field])[:400])))
                             break
                 # equal to the in-process result
                 lab, con = {}, {}
                 try:
-                    b = bytes(asm.assemble(os.path.join(root, name + '.asm'), compress=compress, labels=lab, constants=con))
+                    idirs = list(p.get('include_dirs', []))
+                    if p.get('definitions'):
+                        idirs.append(os.path.join(os.path.abspath(os.path.dirname(asm.__file__)), 'definitions'))
+                    b = bytes(asm.assemble(os.path.join(root, p['name'] + '.asm'), compress=compress, labels=lab, constants=con, include_dirs=idirs))
                     want = (0, b, ''.join('{} 0x{:08x}\n'.format(k, v) for k, v in lab.items()))
                 except asm.AssemblerError:
                     want = (1, None, None)
@@ -393,7 +571,8 @@ def run(tier, replay):
                     cli_dis += 1
                     rep.violation('fresh process result differs from the in-process result for program {} (compress={}): rc {} vs {}'.format(
                         name, compress, got[0], want[0]),
-                        dict(case=dict(kind='cli-vs-inprocess', program=p['src'], compress=compress, cli=repr(got)[:400], inproc=repr(want)[:400])))
+                        dict(case=dict(kind='cli-vs-inprocess', program=p['src'], cli_args=list(p.get('cli_args', ())), include_case=p['kind'],
+                                       compress=compress, cli=repr(got)[:400], inproc=repr(want)[:400])))
                 else:
                     rep.count('cli_equals_inprocess')
     finally:
@@ -406,15 +585,19 @@ def run(tier, replay):
     rep.cov['distinct_calls_compared_with_model'] = len(keys)
     rep.cov['hash_seeds'] = HASH_SEEDS
     rep.cov['rule'] = ('pool of seeded programs (generated valid programs of every kind, programs with one planted fault of each C15 class, '
-                       'cross-reference pairs, same-names programs); each interpreter runs several histories of 5-50 assemble() calls over '
+                       'cross-reference pairs, same-names programs, programs spelling registers in another case and programs whose constants mention or are named like such spellings, '
+                       'FILE-based projects whose nested include is found only through include_dirs (same main file: fails with include_dirs=None, assembles with [ext]), '
+                       'C15 cases cut into include trees); group siblings join a history together; each interpreter runs several histories of 5-50 assemble() calls over '
                        '~12 pool programs, modes fresh / none / reused-cleared / equal-contents / dirty(noise); every non-noise result is '
                        'compared with every other observation of the same (program, -c, dictionary-input class) and with the history-free '
-                       'Lean model; module tables snapshotted around each history; CLI under 8 PYTHONHASHSEED values. '
+                       'Lean model (asms / asmfs with the include dirs); module tables snapshotted around each history; CLI under 8 PYTHONHASHSEED values, '
+                       'including programs run with 2-4 -i directories (and --include-definitions) that all hold a same-named include. '
                        'non-trivial = distinct (program, -c, mode) triples observed.')
     for o in outs[:2]:
         if o['histories']:
             rep.sample(dict(history=[(pid, pool[pid]['kind'], c, m) for pid, c, m in o['histories'][0][:12]]))
     rep.sample(dict(program=pool[0]['src'][:300], model=model.get((0, False), '')[:200]))
+    rep.sample(dict(tree_program=next((show(p) for p in pool if 'path' in p), None)))
     rep.assumptions += ['caller dictionaries are inputs: a pre-populated non-cleared dictionary is a different input (such calls run as noise, their results are not compared)',
                         'pre-populated LABEL tables are outside the model (the label-shifting rule moves caller entries); only constants are pre-populated in equal-contents calls',
                         'interpreter-level state outside asm.py (import caches, logging handlers) is exercised by the histories, not modelled',
@@ -428,7 +611,7 @@ def run(tier, replay):
         rep.violation('correspondence assembleText (history-free Lean model) vs asm.assemble inside histories broke on {} calls, the same way at every '
                       'occurrence; first: program {} ({}) compress={} mode={}: impl {} / model {}'.format(
                           len(model_dis), d['pid'], pool[d['pid']]['kind'], d['compress'], d['mode'], d['got'][:100], d['model'][:100]),
-                      dict(correspondence='BB.Props.C16.standalone vs asm.assemble', case=dict(d, program=pool[d['pid']]['src'])), no_input=True)
+                      dict(correspondence='BB.Props.C16.standalone vs asm.assemble', case=dict(d, program=show(pool[d['pid']]), pool_n=pool_n)), no_input=True)
     return rep.finish(obligations=ob if ob['obligations'] else None)
 
 
@@ -437,21 +620,28 @@ def replay_case(path):
     c = d.get('case') or {}
     asm = progs.get_asm()
     kind = c.get('kind')
-    if kind in ('history', 'table-change') and c.get('plan'):
+    if kind in ('history', 'table-change', 'model') and c.get('plan'):
         os.environ['VERIF_SEED'] = str(d.get('seed', 0))
-        pool = make_pool(asm, c.get('pool_n', 60))
-        plan = [tuple(x) for x in c['plan']]
-        before = snapshot(asm)
-        state = {}
-        last = None
-        for pid, compress, mode in plan:
-            last = call(asm, pool[pid]['src'], compress, mode, state)
-        ch = diff_snap(before, snapshot(asm))
-        pid, compress, mode = plan[-1]
-        alone = subprocess.run([PY, '-c', 'import sys, json; sys.path.insert(0, %r); sys.path.insert(0, %r)\n'
-                                'from harness import progs\nfrom harness.props import c16\nasm = progs.get_asm()\n'
-                                'print(c16.call(asm, json.loads(sys.stdin.read()), %r, %r, {}))' % (common.VERIF, common.REPO, compress, mode)],
-                               input=json.dumps(pool[pid]['src']), stdout=subprocess.PIPE, text=True, env=dict(os.environ, PYTHONPATH=common.REPO)).stdout.strip()
+        proot = os.path.realpath(tempfile.mkdtemp(prefix='bbc16p-'))
+        try:
+            pool = make_pool(asm, c.get('pool_n', 96), proot)
+            materialise_pool(pool, proot)
+            plan = [tuple(x) for x in c['plan']]
+            before = snapshot(asm)
+            state = {}
+            last = None
+            for pid, compress, mode in plan:
+                last = call(asm, pool[pid], compress, mode, state)
+            ch = diff_snap(before, snapshot(asm))
+            pid, compress, mode = plan[-1]
+            prog = {k: v for k, v in pool[pid].items() if k in ('src', 'path', 'include_dirs', 'kind')}
+            alone = subprocess.run([PY, '-c', 'import sys, json; sys.path.insert(0, %r); sys.path.insert(0, %r)\n'
+                                    'from harness import progs\nfrom harness.props import c16\nasm = progs.get_asm()\n'
+                                    'print(c16.call(asm, json.loads(sys.stdin.read()), %r, %r, {}))' % (common.VERIF, common.REPO, compress, mode)],
+                                   input=json.dumps(prog), stdout=subprocess.PIPE, text=True, env=dict(os.environ, PYTHONPATH=common.REPO)).stdout.strip()
+        finally:
+            shutil.rmtree(proot, ignore_errors=True)
+        print('program                   :', json.dumps(show(pool[pid]))[:300])
         print('last call of the history  :', (last or '')[:160])
         print('same call, fresh process  :', alone[:160])
         if ch:
@@ -461,19 +651,20 @@ def replay_case(path):
             return 1
         print('replayed history no longer violates', PROP)
         return 0
-    if kind == 'hashseed':
+    if kind in ('hashseed', 'cli-vs-inprocess'):
         root = os.path.realpath(tempfile.mkdtemp(prefix='bbc16-'))
         try:
+            cli_include_cases(root)
             open(os.path.join(root, 'p.asm'), 'w').write(c['program'])
-            runs = [cli_run(root, 'p', c['compress'], hs, common.REPO) for hs in HASH_SEEDS[:6]]
+            runs = [cli_run(root, 'p', c['compress'], hs, common.REPO, i, c.get('cli_args', ())) for i, hs in enumerate(HASH_SEEDS)]
         finally:
             shutil.rmtree(root, ignore_errors=True)
         bad = any((r['rc'], r['out'], r['labels'], r['stdout']) != (runs[0]['rc'], runs[0]['out'], runs[0]['labels'], runs[0]['stdout']) for r in runs)
         if bad:
-            print('outputs differ between hash seeds')
+            print('outputs differ between hash seeds', HASH_SEEDS, 'for', ['p.asm'] + list(c.get('cli_args', ())))
             print('VIOLATION property={} replay={}'.format(PROP, path))
             return 1
-        print('replayed program gives identical outputs under', HASH_SEEDS[:6])
+        print('replayed program gives identical outputs under', HASH_SEEDS)
         return 0
     print('replay file names no history:', d.get('what'))
     print('VIOLATION property={} replay={} no-failing-input-found'.format(PROP, path))
